@@ -16,7 +16,7 @@ import (
 func init() {
 	eng.Register(&eng.Check{
 		ID: "C16",
-		Rule: "E2 print-then-parse: (F1) every match operator x selector paths x literals x EVERY combination of selector spelling (dotted / bracket / JSON pointer), literal style (bare / double-quoted / backtick where legal), in/contains spelling and whitespace style (minimal, one blank, tab-newline-blank); (F2) ALL trees of depth<=2 over 3 leaves and depth 3 over 2 leaves (thorough: 3 leaves) built from not/and/or and any/all with the 4 binding modes, rendered by a precedence-aware printer that inserts only the required parentheses, in every one of: minimal form, each single node with 1 or 2 redundant parenthesis pairs, every node with one redundant pair (nesting capped at 4), `not not` inserted at each single node, x 3 whitespace styles; (F3) literal fidelity: ALL strings of length<=3 (thorough <=4) over {a / ~ \" ` \\ blank newline CR NUL e-acute 0 - .} in every legal quoting (double-quoted via escapes, backtick, alternative escape spellings); oracle: the parsed tree equals the printed tree (operators, paths, selector type of the chosen spelling, literal text, binding mode and names, shape, `not not e` = e), the literal text equals the string spelled, and `X == <quoted s>` / `<quoted s> in X` are true of X = s. Distinct by construction; non-trivial = rendering with at least one optional choice exercised (everything except the first canonical form of each tree).",
+		Rule: "E2 print-then-parse: (F1) every match operator x selector paths x literals x EVERY combination of selector spelling (dotted / bracket / JSON pointer), literal style (bare / double-quoted / backtick where legal), in/contains spelling and whitespace style (minimal, one blank, tab-newline-blank); (F2) ALL trees of depth<=2 over 3 leaves and depth 3 over 2 leaves (thorough: 3 leaves), plus and/or chains of 4..7 operands in right-nested, left-nested, balanced and mixed shapes, built from not/and/or and any/all with the 4 binding modes, rendered by a precedence-aware printer that inserts only the required parentheses, in every one of: minimal form, each single node with 1 or 2 redundant parenthesis pairs, every node with one redundant pair (nesting capped at 4), `not not` inserted at each single node, x 3 whitespace styles; (F3) literal fidelity: ALL strings of length<=3 (thorough <=4) over {a / ~ \" ` \\ blank newline CR NUL e-acute 0 - .} in every legal quoting (double-quoted via escapes, backtick, alternative escape spellings); oracle: the parsed tree equals the printed tree (operators, paths, selector type of the chosen spelling, literal text, binding mode and names, shape, `not not e` = e), the literal text equals the string spelled, and `X == <quoted s>` / `<quoted s> in X` are true of X = s. Distinct by construction; non-trivial = rendering with at least one optional choice exercised (everything except the first canonical form of each tree).",
 		Assumptions: []string{"the printer is the harness's (it is the property's premise): only parentheses required by not > and > or / right grouping are emitted", "bounded tree depth and string alphabet"},
 		Run:         runC16,
 	})
@@ -443,6 +443,47 @@ func c16Trees(leaves []any, depth int) []any {
 	return cur
 }
 
+// c16Chains: operator chains of 4..7 operands in every grouping shape that matters: right-nested (printed without
+// parentheses), left-nested and balanced (printed with the parentheses the right-grouping rule requires), pure and mixed.
+func c16Chains() []any {
+	leaf := func(i int) any { return &Match{Sel: []string{string(rune('a' + i))}, Op: OpEq, Lit: strconv.Itoa(i)} }
+	var out []any
+	for n := 4; n <= 7; n++ {
+		for _, or := range []bool{false, true} {
+			// right-nested
+			var r any = leaf(n - 1)
+			for i := n - 2; i >= 0; i-- {
+				r = &Bin{Or: or, L: leaf(i), R: r}
+			}
+			out = append(out, r)
+			// left-nested
+			var l any = leaf(0)
+			for i := 1; i < n; i++ {
+				l = &Bin{Or: or, L: l, R: leaf(i)}
+			}
+			out = append(out, l)
+			// balanced
+			var bal func(lo, hi int) any
+			bal = func(lo, hi int) any {
+				if hi-lo == 1 {
+					return leaf(lo)
+				}
+				mid := (lo + hi) / 2
+				return &Bin{Or: or, L: bal(lo, mid), R: bal(mid, hi)}
+			}
+			out = append(out, bal(0, n))
+			// mixed: alternating operators right-nested, and a not in the middle
+			var m any = leaf(n - 1)
+			for i := n - 2; i >= 0; i-- {
+				m = &Bin{Or: (i%2 == 0) == or, L: leaf(i), R: m}
+			}
+			out = append(out, m)
+			out = append(out, &Bin{Or: or, L: leaf(0), R: &Bin{Or: or, L: &Not{X: leaf(1)}, R: &Bin{Or: or, L: leaf(2), R: &Bin{Or: !or, L: leaf(3), R: leaf(4)}}}})
+		}
+	}
+	return out
+}
+
 func c16Strings(maxLen int) []string {
 	alpha := []string{"a", "/", "~", "\"", "`", "\\", " ", "\n", "\r", "\x00", "é", "0", "-", "."}
 	out := []string{""}
@@ -512,6 +553,7 @@ func runC16(c *eng.Ctx) {
 		}
 		trees := c16Trees(c16Leaves(3), 2)
 		trees = append(trees, c16Trees(c16Leaves(nl), 3)...)
+		trees = append(trees, c16Chains()...)
 		c.MaxOf("trees", int64(len(trees)))
 		for ti, t := range trees {
 			unit++
